@@ -1,10 +1,93 @@
 //! C15 — a peer is validated only by a STUN message accepted from it, and stays validated
 
+use std::net::{IpAddr, Ipv4Addr, Ipv6Addr, SocketAddr};
+
+use serde::{Deserialize, Serialize};
 use serde_json::{json, Value};
 
-use crate::agentsim::{Profile, Summary};
+use stun_proto::agent::{HandleStunReply, StunAgent};
+use stun_types::message::Message;
+use stun_types::TransportType;
+
+use crate::agentsim::{self, Profile, Summary};
 use crate::common::*;
+use crate::ensure;
 use crate::props::agentprops::*;
+use crate::refstun;
+
+/// many distinct peers on one agent: validation must persist however many there are
+#[derive(Debug, Clone, Serialize, Deserialize)]
+pub struct ManyPeers {
+    pub n: u32,
+    pub v6: bool,
+    pub tcp: bool,
+    /// how the peers are accepted: 0 indications, 1 requests, 2 responses to unsealed requests
+    pub how: u8,
+}
+
+fn nth_peer(i: u32, v6: bool) -> SocketAddr {
+    if v6 {
+        SocketAddr::new(IpAddr::V6(Ipv6Addr::from((0x2001_0db8u128 << 96) | (i as u128 * 0x1_0001))), 1024 + (i % 60_000) as u16)
+    } else {
+        SocketAddr::new(IpAddr::V4(Ipv4Addr::from(0x0a00_0000u32 + i * 7)), 1024 + (i % 60_000) as u16)
+    }
+}
+
+fn many_peers(c: &ManyPeers, st: &mut Stats) -> TestResult {
+    st.eval();
+    let transport = if c.tcp { TransportType::Tcp } else { TransportType::Udp };
+    let mut agent = StunAgent::builder(transport, agentsim::local_addr()).build();
+    let origin = agentsim::process_origin();
+    for i in 0..c.n {
+        let from = nth_peer(i, c.v6);
+        ensure!(!agent.is_validated_peer(from), "c15-spurious", "peer #{} ({}) is validated before anything was received from it", i, from);
+        let tid = 0x4000_0000_0000_0000_0000u128 + i as u128;
+        let bytes = match c.how % 3 {
+            0 | 1 => {
+                let mut b = refstun::header(refstun::type_encode(if c.how % 3 == 0 { 1 } else { 0 }, 1), 0, tid);
+                refstun::push_tlv(&mut b, 0x8022, b"peer", 0);
+                refstun::set_len(&mut b);
+                b
+            }
+            _ => {
+                let req = Message::builder(stun_types::message::MessageType::from_class_method(stun_types::message::MessageClass::Request, 1), tid.into());
+                agent.send(req, from, origin).map_err(|e| Fail::new("harness", format!("send failed: {:?}", e)))?;
+                agentsim::response_bytes(tid, false, agentsim::Auth::Unsigned, false, 0)
+            }
+        };
+        let msg = Message::from_bytes(&bytes).map_err(|e| Fail::new("harness", format!("{:?}", e)))?;
+        let reply = guard(|| matches!(agent.handle_stun(msg, from), HandleStunReply::Drop)).map_err(|p| Fail::new("c15-panic", p))?;
+        ensure!(!reply, "c15-lost", "message #{} from {} was dropped", i, from);
+        ensure!(agent.is_validated_peer(from), "c15-lost", "peer #{} ({}) is not validated right after its message was accepted", i, from);
+        // spot checks while the set grows: the first, the middle and the previous peer stay validated
+        for j in [0, i / 2, i.saturating_sub(1)] {
+            let a = nth_peer(j, c.v6);
+            ensure!(
+                agent.is_validated_peer(a),
+                "c15-lost",
+                "after accepting messages from {} distinct peers, peer #{} ({}) is no longer validated although nothing involving it happened",
+                i + 1,
+                j,
+                a
+            );
+        }
+    }
+    for j in 0..c.n {
+        let a = nth_peer(j, c.v6);
+        ensure!(
+            agent.is_validated_peer(a),
+            "c15-lost",
+            "after accepting messages from {} distinct peers, peer #{} ({}) is no longer validated",
+            c.n,
+            j,
+            a
+        );
+    }
+    ensure!(!agent.is_validated_peer(nth_peer(c.n + 1, c.v6)), "c15-spurious", "a peer that never sent anything is validated");
+    st.class("many distinct peers on one agent");
+    st.nontrivial(digest(&(c.n, c.v6, c.tcp, c.how)));
+    Ok(())
+}
 
 fn nontrivial(s: &Summary) -> bool {
     s.drop_then_other_peer_traffic > 0 || (s.validated_peers >= 1 && (s.dropped_forged + s.dropped_unknown) > 0)
@@ -32,11 +115,23 @@ static PROP: AgentProp = AgentProp {
 
 pub fn run(ctx: &Ctx) -> EvidenceMeta {
     drive(ctx, &PROP, 25_000, 800_000);
+    // capacity: however many peers an agent has seen, all of them stay validated
+    let mut many = vec![];
+    for n in if ctx.quick() { vec![300u32, 1_100, 4_200, 70_000] } else { vec![300, 1_100, 4_200, 70_000, 300_000] } {
+        for (v6, tcp, how) in [(false, false, 0u8), (true, false, 1), (false, true, 2), (true, true, 0)] {
+            if how == 2 && n > 5_000 {
+                continue;
+            }
+            many.push(ManyPeers { n, v6, tcp, how });
+        }
+    }
+    ctx.enumerate("many-peers", &many, many_peers);
     EvidenceMeta {
         rule: "histories as in C05 over 3 source addresses (IPv4 and IPv6) plus one address never used and the local address. Oracle: after \
                every call is_validated_peer(a) for all five addresses equals the model set, which grows exactly on a request/indication \
                handed in from a and on a delivered response from a (never on a drop, never on send). Non-trivial = history with a \
-               dropped message followed by accepted traffic from another address, or with drops and at least one validated peer; \
+               dropped message followed by accepted traffic from another address (plus: up to 70 000 distinct peers accepted by one agent, \
+               every earlier one re-queried), or with drops and at least one validated peer; \
                distinct by history."
             .into(),
         assumptions: vec![],
@@ -45,6 +140,10 @@ pub fn run(ctx: &Ctx) -> EvidenceMeta {
     }
 }
 
-pub fn replay(_check: &str, case: &Value, st: &mut Stats) -> Result<TestResult, String> {
+pub fn replay(check: &str, case: &Value, st: &mut Stats) -> Result<TestResult, String> {
+    if check == "many-peers" {
+        let c: ManyPeers = parse_case(case)?;
+        return Ok(many_peers(&c, st));
+    }
     replay_history(&PROP, case, st)
 }
